@@ -122,6 +122,25 @@ KindProgV(X, Y, crit) ==
       misc == {[op |-> "sum", kind |-> "N", regs |-> r] : r \in {<<>>, <<7>>, <<7, 8>>, <<8, 10, 7>>, <<9, 11, 7>>, <<8, 9>>}}
               \cup {[op |-> z, kind |-> k] : z \in {"zero", "one"}, k \in {"D1", "D2", "N"}}
   IN [key |-> "kinds/" \o (IF crit THEN "crit/" ELSE "") \o ToString(X) \o ToString(Y), leaves |-> leaves, code |-> wraps \o SetToSeq(bin \cup rawok \cup cmp \cup un \cup conv \cup so \cup misc)]
+\* sums whose value depends on the order of addition (0.1 + 0.2 + 0.3 + 0.6 is 1.2000000000000002 from the left and
+\* 1.2 pairwise): registers 1..5 = the numbers, 6..10 = their wrap-copies
+SumCritProg(kind) ==
+  LET vals == << FOfRat(1, 10), FOfRat(2, 10), FOfRat(3, 10), FOfRat(6, 10), FOfRat(7, 10) >>
+      leaves == [i \in 1..5 |-> Leaf(kind, i, vals[i], <<"a", "b">>)]
+      wraps == [i \in 1..5 |-> [op |-> "wrap", a |-> i]]
+      lists == {<<1, 2, 3, 4>>, <<4, 3, 2, 1>>, <<1, 2, 3, 4, 5>>, <<5, 1, 4, 2, 3>>, <<2, 4, 1, 3>>, <<3, 3, 3, 3, 3, 3>>}
+  IN [key |-> "order/sumcrit/" \o kind, leaves |-> leaves,
+      code |-> wraps \o SetToSeq({[op |-> "sum", kind |-> kind, regs |-> l] : l \in lists}
+                                 \cup {[op |-> "sum", kind |-> "N", regs |-> [i \in 1..Len(l) |-> l[i] + 5]] : l \in lists})]
+\* sign predicates exactly at zero (and at -0.0), bare and inside the container: the container must answer what the
+\* contained type answers
+\* registers: 1 F(0.0)  2 F(-0.0)  3 D1(0.0)  4 D2(0.0)  5 D1(-0.0)  6 F(1.5)   7..12 their wrap-copies
+SignZeroProg ==
+  LET leaves == << LeafF(FZ), LeafF(FNeg(FZ)), Leaf("D1", 1, FZ, <<"a">>), Leaf("D2", 2, FZ, <<"a">>), Leaf("D1", 3, FNeg(FZ), <<"a">>), LeafF(FOfRat(3, 2)) >>
+      wraps == [i \in 1..6 |-> [op |-> "wrap", a |-> i]]
+      un == {[op |-> op, a |-> a, fa |-> "r"] : op \in {"is_positive", "is_negative", "signum", "is_zero", "abs", "neg"}, a \in 1..12}
+  IN [key |-> "kinds/signzero", leaves |-> leaves, code |-> wraps \o SetToSeq(un)]
+
 \* equality across kinds where everything of lower order coincides: a second-order number with ZERO gradient and a
 \* non-zero stored second-order array against the float (and the first-order constant) of the same value, bare and wrapped,
 \* in both positions - they are NOT equal, whatever the container arm looks at
@@ -138,7 +157,7 @@ EqZeroProg(X) ==
                 <<5, 6>>, <<6, 5>>, <<5, 8>>, <<8, 5>>, <<6, 8>>, <<8, 6>>, <<5, 7>>, <<7, 5>>,          \* container with container
                 <<1, 6>>, <<6, 1>>, <<1, 8>>, <<8, 1>>, <<1, 7>>, <<7, 1>>}                              \* bare float with container
   IN [key |-> "kinds/eqzero/" \o ToString(X), leaves |-> leaves, code |-> wraps \o SetToSeq({Ins2(op, p[1], p[2]) : op \in {"eq", "ne"}, p \in pairs})]
-KindProgs == {EqZeroProg(X) : X \in {<<"a">>, <<"a", "b">>}} \cup {KindProgV(X, Y, c) : X \in {<<"a", "b">>, <<>>}, Y \in {<<"a", "b">>, <<"b", "c">>, <<"b", "a">>}, c \in BOOLEAN}
+KindProgs == {SignZeroProg} \cup {EqZeroProg(X) : X \in {<<"a">>, <<"a", "b">>}} \cup {KindProgV(X, Y, c) : X \in {<<"a", "b">>, <<>>}, Y \in {<<"a", "b">>, <<"b", "c">>, <<"b", "a">>}, c \in BOOLEAN}
 
 \* ---- order family (C19) ----------------------------------------------------------------------
 Vals == {FOfRat(-5, 2), FOfInt(-1), FOfRat(-3, 4), FOfRat(3, 4), FOfInt(1), FOfRat(5, 2)}
@@ -190,7 +209,7 @@ PyProg(X, Y, neg) ==
 PyProgs == {PyProg(X, Y, n) : X \in {<<"a", "b">>, <<>>}, Y \in {<<"a", "b">>, <<"b", "c">>, <<"b", "a">>}, n \in BOOLEAN}
 
 Family == IOEnv.FAMILY
-Out == CASE Family = "layout" -> LayoutProgs [] Family = "read" -> ReadProgs [] Family = "kinds" -> KindProgs [] Family = "order" -> OrderProgs [] Family = "py" -> PyProgs
+Out == CASE Family = "layout" -> LayoutProgs [] Family = "read" -> ReadProgs [] Family = "kinds" -> KindProgs [] Family = "order" -> OrderProgs \cup {SumCritProg("D1"), SumCritProg("D2")} [] Family = "py" -> PyProgs
 ASSUME ndJsonSerialize(IOEnv.OUT, SetToSeq(Out))
 ASSUME PrintT(<<"GEN", Family, Cardinality(Out)>>)
 VARIABLE x
